@@ -39,6 +39,7 @@ func init() {
 			{Name: "whole-start-schedules", Run: c10Whole, QuickS: 60, ThoroughS: 900},
 			{Name: "processor-creation-order", Run: c10ProcOrder, Workers: 4, QuickS: 30, ThoroughS: 120},
 			{Name: "factory-processor-view", Run: c10FPPView, Workers: 4, QuickS: 30, ThoroughS: 120},
+			{Name: "failing-runner-orders", Run: c10FailingRunner, Workers: 4, QuickS: 30, ThoroughS: 120},
 		},
 	})
 }
@@ -843,5 +844,88 @@ func c10FPPView(c *core.Ctx) {
 			c.Outcome("fpp-view/complete-under-every-order")
 		}
 		c.Sample(map[string]any{"case": cs, "orders": factorialInt(n), "outcome": first})
+	})
+}
+
+// ---- equally ranked runners of which one fails: whether the start succeeds must not depend on
+// the order in which the registries enumerate them
+
+func c10FailingRunner(c *core.Ctx) {
+	type rc struct {
+		N     int  `json:"runners"`
+		Fail  int  `json:"failing_runner"`
+		Equal bool `json:"equal_order_instead_of_none"`
+	}
+	gen := func(yield func(rc) bool) {
+		for n := 2; n <= 4; n++ {
+			for f := 0; f < n; f++ {
+				for _, eq := range []bool{false, true} {
+					if !yield(rc{n, f, eq}) {
+						return
+					}
+				}
+			}
+		}
+	}
+	Cases(c, gen, func(c *core.Ctx, cs rc) {
+		outcomes := map[string][]int{}
+		first := ""
+		for k := 0; k < factorialInt(cs.N); k++ {
+			perm := scen.NthPerm(cs.N, k)
+			rt := &scen.RT{}
+			names := make([]string, cs.N)
+			comps := make([]any, cs.N)
+			user := map[string]bool{}
+			for i := 0; i < cs.N; i++ {
+				names[i] = fmt.Sprintf("r%d", i)
+				user[names[i]] = true
+				p := scen.Part{Nm: names[i], O: 7, RT: rt, Fail: i == cs.Fail}
+				if cs.Equal {
+					comps[i] = &scen.RunO{Part: p}
+				} else {
+					comps[i] = &scen.RunN{Part: p}
+				}
+			}
+			var base []string
+			var reg []any
+			for _, i := range perm {
+				base = append(base, names[i])
+				reg = append(reg, comps[i])
+			}
+			o := scen.Start(scen.StartSpec{Ch: envx.Fixed("", nil), Comps: reg, User: user, Base: base})
+			c.S.Evaluations++
+			c.S.States++
+			c.S.Transitions += int64(o.Trace.Calls)
+			sig := fmt.Sprintf("start-fails=%v", o.Err != nil)
+			if o.Panic != "" || o.Abort != "" {
+				sig = "panic: " + o.Panic + o.Abort
+			}
+			if k == 0 {
+				first = sig
+			}
+			if _, ok := outcomes[sig]; !ok {
+				outcomes[sig] = perm
+			}
+		}
+		c.S.Programs++
+		c.S.Nontrivial++
+		key := "C10/failing-runner/" + core.Hash(cs)
+		switch {
+		case len(outcomes) > 1:
+			var other string
+			for s := range outcomes {
+				if s != first {
+					other = s
+				}
+			}
+			c.Outcome("failing-runner/order-dependent")
+			c.Report(key, "order-dependent", fmt.Sprintf("%d equally ranked runners, runner %d returns an error: %q under the identity enumeration order, %q under order %v", cs.N, cs.Fail, first, other, outcomes[other]), cs)
+		case first != "start-fails=true":
+			c.Outcome("failing-runner/swallowed")
+			c.Report(key, "order-dependent", fmt.Sprintf("%d equally ranked runners, runner %d returns an error: %s under every order", cs.N, cs.Fail, first), cs)
+		default:
+			c.Outcome("failing-runner/fails-under-every-order")
+		}
+		c.Sample(map[string]any{"case": cs, "orders": factorialInt(cs.N)})
 	})
 }
